@@ -1120,3 +1120,103 @@ func TestD32_CallConverterOverridesDefaultConverter(t *testing.T) {
 		t.Fatalf("default converter afterwards: %v", res.Out(0))
 	}
 }
+
+// D33 (C07): a value the caller supplied kept its edges to every converter
+// that outputs a value with the same name and type. With the same-name
+// discount the detour through such a converter is free, so in a good share of
+// calls it was run although nobody needed it -- and its output replaced the
+// supplied value, which was then not the one converted. The same happened
+// when the converter was needed for ANOTHER of its results: outputValues wrote
+// all its results into the graph, the supplied value's vertex included.
+type d33X int
+type d33Src int
+type d33Dst string
+type d33Seed int
+type d33Other int
+
+func TestD33_SuppliedValueIsNotReplacedByAConverterOutput(t *testing.T) {
+	conv := func(v d33Src) d33Dst { return d33Dst(fmt.Sprint(int(v))) }
+	// (1) a converter nobody needs: makes an "a d33Src" out of an "a d33X"
+	t.Run("unneeded detour", func(t *testing.T) {
+		target := argmapper.MustFunc(argmapper.NewFunc(func(in struct {
+			argmapper.Struct
+			A d33Dst
+		}) string {
+			return string(in.A)
+		}))
+		p := func(in struct {
+			argmapper.Struct
+			A d33X
+		}) struct {
+			argmapper.Struct
+			A d33Src
+		} {
+			return struct {
+				argmapper.Struct
+				A d33Src
+			}{A: 999}
+		}
+		for i := 0; i < 300; i++ {
+			res, pn := call(target, argmapper.Named("a", d33Src(5)), argmapper.Named("b", d33Src(6)),
+				argmapper.NamedSubtype("a", d33X(1), "s"), argmapper.Converter(conv, p))
+			if pn != nil || res.Err() != nil {
+				t.Fatalf("%v %v", pn, res.Err())
+			}
+			if got := res.Out(0).(string); got != "5" {
+				t.Fatalf("iteration %d: parameter a was converted from %s, the supplied value named a is 5", i, got)
+			}
+		}
+	})
+	// (2) a converter that IS needed for its other result
+	t.Run("by-product of a needed converter", func(t *testing.T) {
+		target := argmapper.MustFunc(argmapper.NewFunc(func(in struct {
+			argmapper.Struct
+			A d33Dst
+			C d33Other
+		}) string {
+			return string(in.A)
+		}))
+		p := func(s d33Seed) struct {
+			argmapper.Struct
+			A d33Src
+			C d33Other
+		} {
+			return struct {
+				argmapper.Struct
+				A d33Src
+				C d33Other
+			}{A: 999, C: 5}
+		}
+		for i := 0; i < 300; i++ {
+			res, pn := call(target, argmapper.Named("a", d33Src(1)), argmapper.Named("b", d33Src(2)),
+				argmapper.Typed(d33Seed(7)), argmapper.Converter(conv, p))
+			if pn != nil || res.Err() != nil {
+				t.Fatalf("%v %v", pn, res.Err())
+			}
+			if got := res.Out(0).(string); got != "1" {
+				t.Fatalf("iteration %d: parameter a was converted from %s, the supplied value named a is 1", i, got)
+			}
+		}
+	})
+}
+
+// D34 (C14): the pointer depth of a marker struct was counted in a uint8 and
+// compared with 1 only after the loop: behind 256 or 257 pointers the counter
+// had wrapped to 0 or 1 and NewFunc accepted a signature it cannot honour
+// (the call then panicked inside reflect).
+func TestD34_DeeplyIndirectedMarkerStructIsRejected(t *testing.T) {
+	st := reflect.TypeOf(struct {
+		argmapper.Struct
+		A int
+	}{})
+	for _, depth := range []int{2, 3, 255, 256, 257, 512, 513} {
+		typ := st
+		for i := 0; i < depth; i++ {
+			typ = reflect.PtrTo(typ)
+		}
+		fn := reflect.MakeFunc(reflect.FuncOf([]reflect.Type{typ}, nil, false), func([]reflect.Value) []reflect.Value { return nil })
+		if _, err := argmapper.NewFunc(fn.Interface()); err == nil {
+			t.Errorf("NewFunc accepted a marker struct behind %d pointers", depth)
+		}
+	}
+}
